@@ -19,6 +19,8 @@ EXPLANATION = (
     'to the factor dtype first; hook effects are dominated by the training-mode test and the factor gate; reductions are averaged over '
     'the group communicated on.  Positive semi-definiteness beyond the Gram form and floating-point symmetry are not decided.')
 
+NOT_DECIDED = 'semi-definiteness beyond the Gram form; floating-point symmetry; the cross-rank mean as a value'
+
 
 def run(ctx: Ctx) -> None:
     ctx.do(TR.rule_alt_paths)
